@@ -294,12 +294,8 @@ func c13r3(c *Ctx, id string) {
 		for _, fr := range gl.FlagField {
 			for _, fn := range w.ModFuncs {
 				allInstrs(fn, func(in ssa.Instruction) {
-					st, ok := in.(*ssa.Store)
-					if !ok {
-						return
-					}
-					f := fieldOfAddr(st.Addr)
-					if f == nil || f.Name() != fr.Name || fieldOwner(st.Addr) != fr.Owner || w.Origin(st.Val) != "const(false)" {
+					f, addr, val := flagWrite(in)
+					if f == nil || f.Name() != fr.Name || fieldOwner(addr) != fr.Owner || w.Origin(val) != "const(false)" {
 						return
 					}
 					if reach[rootFn(fn)] {
@@ -396,18 +392,14 @@ func c13r4(c *Ctx, id string) {
 			construct := "flag:" + fr.Owner + "." + fr.Name + "@" + fname(gl.Starter)
 			before, inside := false, false
 			allInstrs(gl.Starter, func(in ssa.Instruction) {
-				if st, ok := in.(*ssa.Store); ok {
-					if f := fieldOfAddr(st.Addr); f != nil && f.Name() == fr.Name && fieldOwner(st.Addr) == fr.Owner && w.Origin(st.Val) == "const(true)" && dominatesInstr(st, gl.Go) {
-						before = true
-					}
+				if f, addr, val := flagWrite(in); f != nil && f.Name() == fr.Name && fieldOwner(addr) == fr.Owner && w.Origin(val) == "const(true)" && dominatesInstr(in, gl.Go) {
+					before = true
 				}
 			})
 			for _, f := range withAnon(gl.Body) {
 				allInstrs(f, func(in ssa.Instruction) {
-					if st, ok := in.(*ssa.Store); ok {
-						if fl := fieldOfAddr(st.Addr); fl != nil && fl.Name() == fr.Name && fieldOwner(st.Addr) == fr.Owner && w.Origin(st.Val) == "const(true)" {
-							inside = true
-						}
+					if fl, addr, val := flagWrite(in); fl != nil && fl.Name() == fr.Name && fieldOwner(addr) == fr.Owner && w.Origin(val) == "const(true)" {
+						inside = true
 					}
 				})
 			}
